@@ -79,7 +79,8 @@ func VerifyG1(publicKey *bn256.G2, message *bn256.G1, signature *bn256.G1) bool 
 // signature shares using Lagrange interpolation.
 func RecoverSignature(shares []*SignatureShare, threshold int) (*bn256.G1, error) {
 
-	// Indexes of participants that have valid shares.
+	// Valid shares and indexes of participants that provided them.
+	var validShares []*SignatureShare
 	var validParticipants []*big.Int
 
 	// Get sufficient number of participants with valid shares.
@@ -90,6 +91,7 @@ func RecoverSignature(shares []*SignatureShare, threshold int) (*bn256.G1, error
 		if s == nil || s.V == nil || s.I < 0 {
 			continue
 		}
+		validShares = append(validShares, s)
 		validParticipants = append(validParticipants, big.NewInt(int64(s.I)))
 	}
 
@@ -102,9 +104,9 @@ func RecoverSignature(shares []*SignatureShare, threshold int) (*bn256.G1, error
 	}
 
 	result := new(bn256.G1)
-	for i := range validParticipants {
+	for i, s := range validShares {
 		basis := lagrangeBasis(i, validParticipants)
-		result.Add(result, new(bn256.G1).ScalarMult(shares[i].V, basis))
+		result.Add(result, new(bn256.G1).ScalarMult(s.V, basis))
 	}
 
 	return result, nil
@@ -134,7 +136,8 @@ func (s *SecretKeyShare) PublicKeyShare() *PublicKeyShare {
 // public key shares using Lagrange interpolation.
 func RecoverPublicKey(shares []*PublicKeyShare, threshold int) (*bn256.G2, error) {
 
-	// Indexes of participants that have valid shares.
+	// Valid shares and indexes of participants that provided them.
+	var validShares []*PublicKeyShare
 	var validParticipants []*big.Int
 
 	// Get sufficient number of participants with valid shares.
@@ -142,6 +145,7 @@ func RecoverPublicKey(shares []*PublicKeyShare, threshold int) (*bn256.G2, error
 		if s == nil || s.V == nil || s.I < 0 {
 			continue
 		}
+		validShares = append(validShares, s)
 		validParticipants = append(validParticipants, big.NewInt(int64(s.I)))
 		if len(validParticipants) == threshold {
 			break
@@ -154,10 +158,10 @@ func RecoverPublicKey(shares []*PublicKeyShare, threshold int) (*bn256.G2, error
 
 	result := new(bn256.G2)
 
-	for i := range validParticipants {
+	for i, s := range validShares {
 		basis := lagrangeBasis(i, validParticipants)
 
-		result.Add(result, new(bn256.G2).ScalarMult(shares[i].V, basis))
+		result.Add(result, new(bn256.G2).ScalarMult(s.V, basis))
 	}
 
 	return result, nil
